@@ -233,8 +233,12 @@ class C17(Property):
         if k == 2:
             s = gen_hex_string(cs)
             if 'C17-F1' in open_ids('C17') and py_fromhex(s) is not None and '_inexact' in hex_reject_class(s):
-                ctx.count('excluded[C17-F1]')  # open finding: excluded by construction, counted
-                return None
+                # open finding: excluded by construction, counted - but one in six is kept, so that anything other than the listed
+                # rejection (a wrong value, a panic) inside that region is still reported
+                if not cs.bool(42):
+                    ctx.count('excluded[C17-F1]')
+                    return None
+                ctx.count('kept_inside_region[C17-F1]')
             return {'k': 'fromhex', 's': s}
         # tie-directed formatting: decimal text with a trailing 5 at precision p
         p = cs.choice(8)
@@ -342,7 +346,9 @@ class C17(Property):
 
     def known(self, case, f, ctx):
         ids = open_ids('C17')
-        if 'C17-F1' in ids and case['k'] == 'fromhex' and f.signature == 'from_hex_rejects_valid_inexact':
+        if 'C17-F1' in ids and case['k'] == 'fromhex' and f.signature in ('from_hex_rejects_valid_inexact', 'from_hex_rejects_valid_ws_inexact'):
+            # (the same inexact value with blanks around it: blanks alone are accepted - a rejection of an *exact* padded value has
+            # the signature from_hex_rejects_valid_ws and is not covered)
             return 'C17-F1'
         return None
 
